@@ -180,7 +180,7 @@ pub fn random_strategy(tier: Tier) -> BS<Case> {
     let mut cfg = chain_cfg(tier);
     cfg.nblocks = prop_oneof![6 => 1usize..12, 2 => 12usize..30, 1 => 30usize..=60].boxed();
     cfg.base = gen::wide_base();
-    (gen::chain(&cfg), any::<u16>(), any::<u16>(), 0u8..4, 0u8..6, proptest::sample::select(ALL_CALLBACKS.to_vec()), proptest::option::weighted(0.6, vpmodel::layout::layout(tier, false, false)), proptest::bool::weighted(0.3))
+    (gen::chain(&cfg), any::<u16>(), any::<u16>(), 0u8..4, 0u8..9, proptest::sample::select(ALL_CALLBACKS.to_vec()), proptest::option::weighted(0.6, vpmodel::layout::layout(tier, false, false)), proptest::bool::weighted(0.3))
         .prop_map(|(mut chain, a, b, mode, above, cb, layout, verify)| {
             if verify && chain.base == 0 {
                 chain.real_genesis = true;
@@ -189,8 +189,10 @@ pub fn random_strategy(tier: Tier) -> BS<Case> {
             let (base, tip) = (chain.base, chain.base + n - 1);
             // s in base..=tip ; e in s+1..=tip+above
             let s = base + (a as u64 * n >> 16);
+            // --end far above the tip: 2^32, 2^63 and u64::MAX are accepted values too
+            let (above, far) = if above >= 6 { (5, Some([1u64 << 32, 1u64 << 63, u64::MAX][above as usize - 6])) } else { (above, None) };
             let span = tip + above as u64 - s;
-            let e = s + 1 + if span == 0 { 0 } else { (b as u64 * span) >> 16 };
+            let e = far.unwrap_or(s + 1 + if span == 0 { 0 } else { (b as u64 * span) >> 16 });
             let (start, end) = match mode {
                 0 => (None, None),
                 1 => (Some(s), None),
